@@ -72,10 +72,96 @@ fn c03_pin_info() {
     kani::assume(r::one_king_each(&p) && r::at_most_16(&p));
     let before = b;
     b.update_pin_info();
-    assert!(b.checkers.to_u64() == r::checkers_spec(&p), "VERIF update_pin_info checkers");
-    assert!(b.pinned.to_u64() == r::pinned_spec(&p), "VERIF update_pin_info pinned");
+    // set equality, stated square-wise for a nondeterministic square q
+    let q: u8 = kani::any();
+    kani::assume(q < 64);
+    assert!(g::has(b.checkers.to_u64(), q) == r::is_checker(&p, q), "VERIF update_pin_info checkers at square {}", q);
+    assert!(g::has(b.pinned.to_u64(), q) == r::is_pinned(&p, q), "VERIF update_pin_info pinned at square {}", q);
     // frame
-    assert!(view(&b) == p && b.zobrist == before.zobrist, "VERIF update_pin_info modified another field");
+    assert!(same_view(&view(&b), &p) && b.zobrist == before.zobrist, "VERIF update_pin_info modified another field");
+}
+
+/// foreach-loop proof of update_pin_info, ingredient 1 (body): with the one-shot iterator the slider loop
+/// ranges over exactly the spec's pinner set, and for an ARBITRARY pinner s the body adds s to checkers iff
+/// nothing stands between, else the single blocker to pinned; knights and pawns are added directly
+#[kani::proof]
+#[kani::unwind(9)]
+#[kani::stub(chess_bitboard::BitBoard::pop, pop_one_shot)]
+#[kani::stub_verified(chess_lookup::between)]
+#[kani::stub_verified(chess_lookup::rook_rays)]
+#[kani::stub_verified(chess_lookup::bishop_rays)]
+#[kani::stub_verified(chess_lookup::knight_moves)]
+#[kani::stub_verified(chess_lookup::pawn_attacks_moves)]
+fn c03_pin_info_body() {
+    let mut b = any_board();
+    let p = view(&b);
+    kani::assume(r::one_king_each(&p));
+    let before = b;
+    b.update_pin_info();
+    let k = r::king_of(&p, p.turn);
+    let set = if npops() >= 1 { pop_set(0) } else { 0 };
+    assert!(npops() <= 1 && set == r::pinners_spec(&p), "VERIF update_pin_info: slider loop ranges over {:#x}, spec pinners {:#x}", set, r::pinners_spec(&p));
+    let (mut want_c, mut want_p) = (r::leaper_checkers_spec(&p), 0u64);
+    if npops() == 1 {
+        let s = popped(0);
+        let btw = g::between_spec(k, s) & r::occ(&p);
+        if btw == 0 {
+            want_c |= g::bit(s);
+        } else if btw.count_ones() == 1 {
+            want_p = btw;
+        }
+    }
+    assert!(b.checkers.to_u64() == want_c, "VERIF update_pin_info body: checkers {:#x} want {:#x}", b.checkers.to_u64(), want_c);
+    assert!(b.pinned.to_u64() == want_p, "VERIF update_pin_info body: pinned {:#x} want {:#x}", b.pinned.to_u64(), want_p);
+    assert!(same_view(&view(&b), &p) && b.zobrist == before.zobrist, "VERIF update_pin_info modified another field");
+}
+
+/// ingredient 2 (spec-only lemma): the from-scratch sets are exactly the union of the body contributions
+/// over all pinners: is_checker / is_pinned (query forms) characterised through pinners_spec
+#[kani::proof]
+#[kani::unwind(9)]
+fn c03_pin_lemma() {
+    let b = any_board();
+    let p = view(&b);
+    kani::assume(r::one_king_each(&p));
+    let k = r::king_of(&p, p.turn);
+    let o = r::occ(&p);
+    let q: u8 = kani::any();
+    let s: u8 = kani::any();
+    kani::assume(q < 64 && s < 64);
+    let pinners = r::pinners_spec(&p);
+    // checkers = leapers + pinners with nothing between
+    let body_checker = g::has(r::leaper_checkers_spec(&p), q) || (g::has(pinners, q) && g::between_spec(k, q) & o == 0);
+    assert!(r::is_checker(&p, q) == body_checker, "VERIF lemma: checker characterisation at {}", q);
+    // every pinner with exactly one blocker pins that blocker ...
+    if g::has(pinners, s) && (g::between_spec(k, s) & o).count_ones() == 1 && g::has(g::between_spec(k, s) & o, q) {
+        assert!(r::is_pinned(&p, q), "VERIF lemma: blocker {} of pinner {} is not pinned by the spec", q, s);
+    }
+    // ... and every pinned square is the single blocker of some pinner (the first piece beyond it)
+    if r::is_pinned(&p, q) {
+        let (df, dr) = g::aligned_dir(k, q).unwrap();
+        let w = (g::ray(q, df, dr, o) & o).trailing_zeros() as u8;
+        assert!(g::has(pinners, w) && g::between_spec(k, w) & o == g::bit(q), "VERIF lemma: pinned {} has no pinner", q);
+    }
+}
+
+/// ingredient 3 (skeleton, bounded): the real iterator with at most two pinners equals the spec
+#[kani::proof]
+#[kani::unwind(9)]
+#[kani::stub_verified(chess_lookup::between)]
+#[kani::stub_verified(chess_lookup::rook_rays)]
+#[kani::stub_verified(chess_lookup::bishop_rays)]
+#[kani::stub_verified(chess_lookup::knight_moves)]
+#[kani::stub_verified(chess_lookup::pawn_attacks_moves)]
+fn c03_pin_info_loop2() {
+    let mut b = any_board();
+    let p = view(&b);
+    kani::assume(r::one_king_each(&p) && r::pinners_spec(&p).count_ones() <= 2);
+    b.update_pin_info();
+    let q: u8 = kani::any();
+    kani::assume(q < 64);
+    assert!(g::has(b.checkers.to_u64(), q) == r::is_checker(&p, q), "VERIF update_pin_info (<= 2 pinners) checkers at {}", q);
+    assert!(g::has(b.pinned.to_u64(), q) == r::is_pinned(&p, q), "VERIF update_pin_info (<= 2 pinners) pinned at {}", q);
 }
 
 /// BoardBuilder::build(): Ok(b) only if validate() accepted, and b differs from the builder's board only
@@ -89,8 +175,10 @@ fn c06_build() {
     match builder.build() {
         Ok(b) => {
             assert!(inner.validate().is_ok(), "VERIF build returned a board that validate() rejects");
-            assert!(view(&b) == p && b.zobrist == inner.zobrist, "VERIF build changed the position");
-            assert!(caches_ok(&b), "VERIF build: cached check/pin sets differ from the spec");
+            assert!(same_view(&view(&b), &p) && b.zobrist == inner.zobrist, "VERIF build changed the position");
+            let q: u8 = kani::any();
+            kani::assume(q < 64);
+            assert!(caches_ok_at(&b, q), "VERIF build: cached check/pin sets differ from the spec at square {}", q);
         }
         Err(e) => assert!(inner.validate() == Err(e), "VERIF build error differs from validate()"),
     }
